@@ -57,7 +57,7 @@ def run(ctx):
     sums += s2 + s3 + s4 + s5s + s6s
     nsync = sum(1 for ln in lines if '"ev":"statesync"' in ln)
     if nsync < 4:
-        raise vlib.Infra("vacuous run: only %d state syncs" % nsync)
+        ctx.deferred_infra = getattr(ctx, "deferred_infra", []) + ["vacuous run: only %d state syncs" % nsync]
     ctx.coverage.update(state_syncs=nsync)
     t = cc.totals(sums)
     for s in sums:
